@@ -621,6 +621,9 @@ func runConc(path string) {
 		fmt.Fprintln(os.Stderr, "drv:", err)
 		os.Exit(3)
 	}
+	if c.GCPercent > 0 {
+		debug.SetGCPercent(c.GCPercent)
+	}
 	if c.GoMaxProcs > 0 {
 		runtime.GOMAXPROCS(c.GoMaxProcs)
 	}
